@@ -399,23 +399,31 @@ def shrink(ctx, b, tb, bi, sv, site):
     F = ctx.F
     idx = sv[3][1]
     pos = idx[1] if idx[0] == 'vfield' and idx[2] == 'Some' else None
-    pa = m_call(pos, name='position', trait='Iterator') if pos is not None else None
+    fi = first_index(F, b, tb, pos) if pos is not None else None
     good_pos = False
-    if pa is not None and node_assertions_of_self(elem_source(pa[0])) and pa[1][0] == 'closure':
-        cb = F.closure(pa[1][1])
-        rt = strip_sites(TermBuilder(F, cb).return_term()) if cb else None
-        e = m_call(rt, name='eq', trait='PartialEq') if rt else None
-        if e is not None:
-            sides = []
-            for x in e:
-                d = m_digest(x)
-                if d == ('param', 2):
-                    sides.append('elem')
-                elif x[0] == 'upvar' or (d is not None and d[0] == 'upvar'):
-                    sides.append('target')
-            good_pos = sorted(sides) == ['elem', 'target']
+    why = ''
+    if fi is not None and node_assertions_of_self(fi.coll):
+        # the element found is the first whose digest equals the target's: atom eq(digest(e), digest(target)); hit iff it is true
+        def side(x):
+            d = m_digest(x)
+            if d is not None and d == fi.elem:
+                return 'elem'
+            c = fi.captured(x)
+            if (d is not None and fi.captured(d) == ('param', 2)) or (c is not x and m_digest(c) is not None and strip_sites(m_digest(c)) == ('param', 2)) \
+                    or (d is not None and d == ('param', 2)):
+                return 'target'
+            return ''
+        def is_cmp(t):
+            return t[0] == 'call' and call_name(t) in ('eq', 'ne') and len(t[2]) == 2 and sorted([side(t[2][0]), side(t[2][1])]) == ['elem', 'target']
+        atoms = fi.atoms(is_cmp)
+        if len(atoms) == 1:
+            eq_is = call_name(atoms[0]) == 'eq'
+            good_pos = fi.hit_values({atoms[0]: eq_is}) == {True} and fi.hit_values({atoms[0]: not eq_is}) == {False}
+            why = 'hit table over %s is %s / %s' % (fmt(atoms[0]), fi.hit_values({atoms[0]: eq_is}), fi.hit_values({atoms[0]: not eq_is}))
+        else:
+            why = 'no single digest comparison between the element and the target'
     if not good_pos:
-        ctx.fail('C04.5', site, 'removed index is not position(assertions, |a| digest(a) == digest(target)): %s' % fmt(idx), key='C04.5|position')
+        ctx.fail('C04.5', site, 'removed index is not the position of the first assertion whose digest equals the target\'s: %s %s' % (fmt(idx), why), key='C04.5|position')
         return
     found_atom = ('discr', pos)
     empty_atoms = find_terms(b, tb, lambda t: t[0] == 'call' and call_name(t) == 'is_empty' and strip_sites(t[2][0]) == sv)
